@@ -16,9 +16,9 @@ def render(tokens, rng):
         if i > 0:
             prev = tokens[i - 1]
             if t in DELIMS or prev in DELIMS:
-                out.append(rng.choice(["", " ", "\n", "\t ", "", " ", "\u00a0", "\u3000 "]))
+                out.append(rng.choice(["", " ", "\n", "\t ", "", " ", "\u00a0", "\u3000 ", "\r\n"]))
             else:
-                out.append(rng.choice([" ", "\n", "  \t", " ", "\n", "\u00a0", "\u2003\u3000", " \u00a0"]))   # multi-byte white space too
+                out.append(rng.choice([" ", "\n", "  \t", " ", "\n", "\u00a0", "\u2003\u3000", " \u00a0", "\r\n", "\r\n"]))   # multi-byte white space and Windows line ends too
         out.append(txt)
     return "".join(out) + rng.choice(["", "\n", " "])
 
